@@ -21,7 +21,17 @@ override+un-override in the sub, delete+re-create, write_model/read_model, ItemS
                       before / after / in between the creation of the deriving spaces, from a scalar, another
                       target, another mode, or after deletion; then remove+add bases, another base,
                       write_model / zip_model + read_model; observed in EVERY deriving space and its ItemSpace
-                      (see the comment above SHAPES).  This part runs first.
+                      (see the comment above SHAPES).
+
+  nested derivation   a nested tree A.B - A.B.C - A.B.C.E and a parallel tree D - D.C - D.C.E whose levels derive
+                      from the corresponding levels of the first one, level by level (all three levels, the two
+                      upper ones, or the two lower ones only; new_space(bases=...) / add_bases, top-down, bottom-up,
+                      the outer or the middle level last); the reference DEFINED IN AN INNER SPACE (the middle or
+                      the innermost one), target = the definer, its cells, its child, every ancestor inside / above
+                      the shared tree and their cells, objects outside; observed in the deriving space of the same
+                      level, in ItemSpaces of the parallel tree (D[1], D.C[1]) and of the first tree (A.B[1]);
+                      followed by remove+add of the bases of each level, save + load (see the comment above
+                      NEST_ORDERS for what the statement fixes there).  This part runs first.
 
 Expected binding (from the statement only): absolute -> the original object; auto / relative -> the
 corresponding object of the deriving space when the target is the defining space or one of its cells (static),
@@ -884,6 +894,387 @@ def _run_multi(res, c, L):
     res.sample(c.text())
 
 
+# ------------------------------------------------------------------------------------------------ nested derivation
+#
+# part "nested": a nested tree A.B (cells foo, foo2) - A.B.C (bar) - A.B.C.E (baz) and a parallel tree D - D.C - D.C.E
+# in which each level derives from the corresponding level of the first tree, level by level (level 0: D(A.B),
+# level 1: D.C(A.B.C), level 2: D.C.E(A.B.C.E)); which levels are derived ("levels"), in which order the spaces
+# are created and get their bases (new_space(bases=...) / add_bases, top-down, bottom-up, the outer or the middle
+# level last) and whether the reference exists before the derivations are all enumerated.  The reference r is
+# DEFINED IN AN INNER SPACE (A.B.C or A.B.C.E); its target ranges over the defining space, its cells, its child,
+# every ANCESTOR (the root of the shared tree, the middle space, an ancestor above the shared tree: A) and their
+# cells, and objects outside.  Observed in the deriving space of the same level, in ItemSpaces of the parallel
+# tree (D[1].C..., D.C[1]...) and of the first tree (A.B[1].C...), optionally after base changes / save + load.
+#
+# What the statement fixes (and nothing else is asserted):
+#   * target = the defining space or one of its cells, auto / relative  ->  the deriving space / its cells;
+#   * absolute, or a target outside every tree in question (X, a sibling, an ancestor that is not derived by
+#     any level of the parallel tree)                                   ->  the original object;
+#   * a target that is an ancestor of the definer INSIDE the shared tree (or below the definer): the first
+#     sentence speaks of "the defining space itself or one of its cells" only, and "the tree" of the last
+#     sentence can be read as the definer's tree or as the shared tree -> the static binding is NOT asserted;
+#   * "modes and bindings survive base changes, saving and loading" is asserted for EVERY target, as a
+#     differential: the object bound in the deriving space before remove_bases+add_bases of the same bases, or
+#     before write/zip + read, is the bound object afterwards (same full name, live), and the declared mode is
+#     read back unchanged;
+#   * ItemSpace: whatever object V the reference of a static space denotes, its copy in an ItemSpace of that
+#     space's tree denotes the corresponding dynamic object when V lies inside the base's tree (auto /
+#     relative), V itself otherwise; for the first tree's own ItemSpace A.B[1] the expected object follows
+#     from the target alone.
+
+NEST_T1 = ("A", "B")
+NEST_SUB = ("C", "E")
+NEST_ORDERS = {
+    # steps: ("new", level, with base?) | ("add", level)
+    "BC": {
+        "new-top-down": (("new", 0, True), ("new", 1, True)),
+        "add-top-down": (("new", 0, False), ("new", 1, False), ("add", 0), ("add", 1)),
+        "add-bottom-up": (("new", 0, False), ("new", 1, False), ("add", 1), ("add", 0)),
+        "outer-last": (("new", 0, False), ("new", 1, True), ("add", 0)),
+    },
+    "BCE": {
+        "new-top-down": (("new", 0, True), ("new", 1, True), ("new", 2, True)),
+        "add-top-down": (("new", 0, False), ("new", 1, False), ("new", 2, False), ("add", 0), ("add", 1), ("add", 2)),
+        "add-bottom-up": (("new", 0, False), ("new", 1, False), ("new", 2, False), ("add", 2), ("add", 1), ("add", 0)),
+        "outer-last": (("new", 0, False), ("new", 1, True), ("new", 2, True), ("add", 0)),
+        "add-outer-last": (("new", 0, False), ("new", 1, False), ("new", 2, False), ("add", 1), ("add", 2), ("add", 0)),
+        "middle-last": (("new", 0, True), ("new", 1, False), ("new", 2, True), ("add", 1)),
+    },
+    "CE": {
+        "new-top-down": (("new", 0, False), ("new", 1, True), ("new", 2, True)),
+        "add-bottom-up": (("new", 0, False), ("new", 1, False), ("new", 2, False), ("add", 2), ("add", 1)),
+    },
+}
+NEST_DERIVED = {"BC": (0, 1), "BCE": (0, 1, 2), "CE": (1, 2)}
+NEST_DEFINERS = {"BC": (1,), "BCE": (1, 2), "CE": (2,)}
+NEST_TARGETS = ("root", "root-cells", "child", "child-cells", "grandchild", "grandchild-cells", "above",
+                "outside-space", "outside-cells", "prefix-sibling-cells")
+NEST_TLEVEL = {"root": 0, "root-cells": 0, "root-cells2": 0, "child": 1, "child-cells": 1, "grandchild": 2,
+               "grandchild-cells": 2}
+NEST_VAR = {0: "B", 1: "B_C", 2: "B_E"}
+
+
+def nest_t1(level):
+    return NEST_T1 + NEST_SUB[:level]
+
+
+def nest_d(level):
+    return ("D",) + NEST_SUB[:level]
+
+
+def nest_want(mode, tkind, d, f):
+    """'rebind' | 'original' | None for the static binding in the deriving space of level d (f: level of the
+    root of the shared tree, f <= d)"""
+    if mode is None or tkind is None:
+        return None
+    if mode == "absolute":
+        return "original"
+    lv = NEST_TLEVEL.get(tkind)
+    if lv is None:
+        return "original"               # X, A, the sibling: outside the definer's tree and outside the shared tree
+    if lv == d:
+        return "rebind"
+    if lv < f:
+        return "original"               # an ancestor above the shared tree: no level of the parallel tree derives it
+    return None                         # an ancestor inside the shared tree / below the definer: not fixed
+
+
+def nest_target_class(tkind, d, f):
+    lv = NEST_TLEVEL.get(tkind)
+    cells = "-cells" if tkind.endswith("cells") or tkind.endswith("cells2") else ""
+    if lv is None:
+        return {"above": "ancestor-above-tree"}.get(tkind, target_class(tkind, None))
+    if lv == d:
+        return "definer-or-its-cells"
+    if lv > d:
+        return "below-definer"
+    if lv < f:
+        return "ancestor-above-tree" + cells
+    return ("tree-root" if lv == f else "ancestor-in-tree") + cells
+
+
+def nest_root_level(based, d):
+    """level of the root of the tree mapped onto the parallel tree as seen from level d: the topmost level of the
+    unbroken run of derived levels ending at d (None: d itself is not derived)"""
+    if d not in based:
+        return None
+    f = d
+    while f - 1 in based:
+        f -= 1
+    return f
+
+
+# quick tier: (assignment form, ItemSpace flavour) pairs per follow-up - every form and flavour without a follow-up,
+# one flavour per follow-up (the one whose ItemSpace is built on the level that changes)
+NEST_QUICK = {
+    "none": {("attr", "none"), ("set_ref", "none"), ("absref", "none"), ("relref", "none"),
+             ("attr", "D-param"), ("relref", "D-param"), ("absref", "D-param"),
+             ("attr", "mid-param"), ("absref", "mid-param"), ("attr", "T1-param"), ("relref", "T1-param")},
+    "rebase-0": {("attr", "D-param"), ("relref", "none")},
+    "rebase-1": {("attr", "mid-param"), ("relref", "none")},
+    "rebase-2": {("attr", "none"), ("relref", "D-param")},
+    "write-read": {("attr", "D-param"), ("relref", "none"), ("absref", "mid-param")},
+}
+
+
+# thorough tier: ItemSpace flavours per follow-up (A.B[1] does not depend on the parallel tree's bases; an ItemSpace
+# that exists before the last assignment matters only without a follow-up: save + load builds all of them anew)
+NEST_THOROUGH = {
+    "none": ("none", "D-param", "D-live", "T1-param", "mid-param"),
+    "rebase-0": ("none", "D-param", "mid-param"), "rebase-1": ("none", "D-param", "mid-param"),
+    "rebase-2": ("none", "D-param"),
+    "write-read": ("none", "D-param", "mid-param"), "zip-read": ("none", "T1-param"),
+    "rebase-0+write-read": ("D-param",), "rebase-2+write-read": ("none",), "write-read+rebase-1": ("mid-param",),
+}
+
+
+def nested_cases(thorough):
+    if thorough:
+        whens = ("ref-first", "sub-first", "between", "scalar-first+re")
+        ops = MULTI_OPS
+        posts = ("none", "rebase-0", "rebase-1", "rebase-2", "write-read", "zip-read", "rebase-0+write-read",
+                 "rebase-2+write-read", "write-read+rebase-1")
+        items = ("none", "D-param", "D-live", "T1-param", "mid-param")
+        targets = NEST_TARGETS
+    else:
+        whens = ("ref-first", "sub-first")
+        ops = (("attr", "auto"), ("set_ref", "relative"), ("absref", "absolute"), ("relref", "relative"))
+        posts = ("none", "rebase-0", "rebase-1", "rebase-2", "write-read")
+        items = ("none", "D-param", "T1-param", "mid-param")
+        targets = tuple(t for t in NEST_TARGETS if t not in ("outside-space", "prefix-sibling-cells"))
+    for levels in ("BCE", "BC", "CE"):
+        for order in NEST_ORDERS[levels]:
+            for d in NEST_DEFINERS[levels]:
+                for when in whens:
+                    for op, mode in ops:
+                        for t in targets:
+                            for post in posts:
+                                plv = [int(p[-1]) for p in post.split("+") if p.startswith("rebase-")]
+                                if any(x not in NEST_DERIVED[levels] for x in plv):
+                                    continue
+                                for it in items:
+                                    if it == "D-live" and when == "ref-first":
+                                        continue        # nothing is assigned after the ItemSpace exists
+                                    if not thorough and (op, it) not in NEST_QUICK[post]:
+                                        continue
+                                    if thorough and (it not in NEST_THOROUGH[post] or (
+                                            when in ("between", "scalar-first+re")
+                                            and ((op, mode) not in (("attr", "auto"), ("set_ref", "relative"),
+                                                                    ("absref", "absolute"))
+                                                 or post not in ("none", "rebase-1", "write-read")))):
+                                        continue
+                                    yield Case(part="nested", levels=levels, order=order, definer=NEST_SUB[d - 1],
+                                               when=when, op=op, mode=mode, target=t, post=post, items=it)
+
+
+def run_nested(res, c):
+    L = Live()
+    try:
+        _run_nested(res, c, L)
+    finally:
+        L.cleanup()
+
+
+def _run_nested(res, c, L):
+    d = NEST_SUB.index(c.definer) + 1
+    derived = NEST_DERIVED[c.levels]
+    f = nest_root_level(set(derived), d)
+    dexpr = expr(nest_t1(d))                # the defining space
+    H = expr(nest_d(d))                     # the deriving space of the same level
+    rel_d = NEST_SUB[:d]
+    # ---- fixed part of the model (not under test)
+    setup = ["m = mx.new_model('M')", "A = m.new_space('A')"] + tree_lines("A", "B", "B")
+    setup += ["X = m.new_space('X')", "X.new_cells('xf', formula=%r)" % (CELL % "xf"),
+              "X.new_cells('xg', formula=%r)" % (CELL % "xg"),
+              "B2 = A.new_space('B2')", "B2.new_cells('foo', formula=%r)" % (CELL % "foo"),
+              "%s.new_cells('q', formula='lambda: r')" % NEST_VAR[d]]
+    if c.items == "T1-param":
+        setup.append("B.formula = 'lambda i: None'")
+    for ln in setup:
+        e = L.do(ln)
+        if e is not None:
+            raise RuntimeError("setup line %r raised %r" % (ln, e))
+    T = dict(targets_for(NEST_T1, ("X",), ("A", "B2")), above=(("A",), False))
+    # ---- the history
+    build = list(NEST_ORDERS[c.levels][c.order])
+    A_ = ("assign", c.op, c.mode, c.target)
+    touch = [("touch",)] if c.items == "D-live" else []
+    if c.when == "ref-first":
+        steps = [A_] + build
+    elif c.when == "sub-first":
+        steps = build + touch + [A_]
+    elif c.when == "between":
+        k = 1 + min(i for i, s in enumerate(build) if s[0] == "add" or s[2])    # after the first derivation
+        steps = build[:k] + [A_] + build[k:]
+    elif c.when == "scalar-first+re":
+        steps = [("assign", c.op, c.mode, None)] + build + touch + [A_]
+    else:
+        raise ValueError(c.when)
+    steps.append(("snapshot",))
+    for p in (c.post.split("+") if c.post != "none" else []):
+        steps.append(("rebase", int(p[-1])) if p.startswith("rebase-") else (p,))
+    # ---- features of the history: the root of the shared tree when the reference was last derived
+    based, defined, root_then = set(), False, None
+    for s in steps:
+        if s[0] == "assign":
+            defined = s[3] is not None
+            if defined and d in based:
+                root_then = nest_root_level(based, d)
+        elif s[0] == "add" or (s[0] == "new" and s[2]):
+            based.add(s[1])
+            if defined and s[1] == d:
+                root_then = nest_root_level(based, d)
+        elif s[0] == "snapshot":
+            break
+    tcls = nest_target_class(c.target, d, f)
+    tags0 = ["part:nested", "nested-derivation", "levels:" + c.levels, "order:" + c.order,
+             "defined-in:" + ("middle" if d < max(derived) else "inner"), "when:" + c.when, "op:" + c.op,
+             "mode:" + c.mode, "target:" + tcls, "post:" + c.post]
+    if root_then is not None and root_then != f:
+        # a level above the definer got its base after the reference had been derived
+        lv = NEST_TLEVEL.get(c.target)
+        if lv is not None and lv < d:
+            tags0.append("late-upper-base:target-" + ("above-earlier-root" if lv < root_then else
+                                                      "is-earlier-root" if lv == root_then else
+                                                      "inside-earlier-root"))
+        else:
+            tags0.append("late-upper-base")
+    plv = [int(p[-1]) for p in c.post.split("+") if p.startswith("rebase-")]
+    if NEST_TLEVEL.get(c.target) in plv and T[c.target][1] and NEST_TLEVEL[c.target] != d:
+        # the follow-up removes and re-adds the base of the level owning the target cells: the corresponding
+        # cells of the parallel tree (derived cells) are deleted and created anew in between
+        tags0.append("rebase-recreates-corresponding-cells")
+    state = {"mode": None, "target": None}
+
+    def legit_refusal(mode, tkind):
+        if mode is None or tkind is None:
+            return True
+        w = nest_want(mode, tkind, d, f)
+        return w is None or (mode == "relative" and w != "rebind")
+
+    snap = None
+    for step in steps:
+        kind = step[0]
+        att_mode, att_target = state["mode"], state["target"]
+        e = None
+        if kind == "new":
+            _k, lv, withbase = step
+            p = nest_d(lv)
+            e = L.do("%s.new_space(%r%s)" % (expr(p[:-1]) if len(p) > 1 else "m", p[-1],
+                                             ", bases=[%s]" % expr(nest_t1(lv)) if withbase else ""))
+            if e is None and ((lv == 0 and c.items in ("D-param", "D-live")) or (lv == 1 and c.items == "mid-param")):
+                e = L.do("%s.formula = 'lambda i: None'" % expr(p))
+        elif kind == "add":
+            e = L.do("%s.add_bases(%s)" % (expr(nest_d(step[1])), expr(nest_t1(step[1]))))
+        elif kind == "assign":
+            _k, op, mode, tkind = step
+            att_mode, att_target = mode, tkind
+            v = "7" if tkind is None else expr(T[tkind][0])
+            e = L.do(OP_LINE[op] % {"b": dexpr, "v": v, "m": mode})
+            if e is None:
+                state["mode"], state["target"] = ("auto" if op == "attr" else mode), tkind
+        elif kind == "touch":
+            L.do("_it = m.D[1]")            # the ItemSpace exists before the assignment (may fail: not asserted here)
+        elif kind == "snapshot":
+            if len(steps) > steps.index(step) + 1:
+                # the binding before the base change / save: full name of the bound object
+                if L.do("_b0 = %s.r.fullname" % H) is None:
+                    snap = "_b0"
+        elif kind == "rebase":
+            lv = step[1]
+            e = L.do("%s.remove_bases(%s)" % (expr(nest_d(lv)), expr(nest_t1(lv))))
+            e = e or L.do("%s.add_bases(%s)" % (expr(nest_d(lv)), expr(nest_t1(lv))))
+        elif kind in ("write-read", "zip-read"):
+            if "_tmp" not in L.env:
+                L.do("import tempfile, shutil")
+                L.do("_tmp = tempfile.mkdtemp()")
+            if kind == "write-read":
+                e = L.do("mx.write_model(m, _tmp + '/model')")
+                e = e or L.do("m.close()")
+                e = e or L.do("m = mx.read_model(_tmp + '/model', name='M')")
+            else:
+                e = L.do("mx.zip_model(m, _tmp + '/model.zip')")
+                e = e or L.do("m.close()")
+                e = e or L.do("m = mx.read_model(_tmp + '/model.zip', name='M')")
+        else:
+            raise ValueError(step)
+        if e is not None:
+            legit = legit_refusal(att_mode, att_target)
+            with res.case(c.key(), nontrivial=not legit):
+                if not legit:
+                    res.fail(tags=tags0 + ["sym:edit-crash", "step:" + kind] + exc_tags(e),
+                             what="step %r of the history raised %s: %s" % (step, type(e).__name__, str(e)[:200]),
+                             script=L.retry_script(), case=c.text())
+            return
+    # ---- observe
+    mode, tkind = state["mode"], state["target"]
+    want = nest_want(mode, tkind, d, f)
+    tpath, tcells = T[tkind]
+    refmode_probe = "%s._get_object('r', as_proxy=True).refmode == %r"
+    groups = [("static", "definer", [("definer-value", "%s.r is %s" % (dexpr, expr(tpath))),
+                                     ("refmode", refmode_probe % (dexpr, mode))])]
+    fixed = want is not None        # does the statement fix anything observed in this case?
+    probes = []
+    if want is not None:
+        bound = expr(nest_d(d) + tpath[len(nest_t1(d)):]) if want == "rebind" else expr(tpath)
+        probes += [("wrong-binding", "%s.r is %s" % (H, bound)), formula_probe(H, bound, tcells)]
+    if snap is not None:
+        fixed = True
+        probes.append(("binding-not-surviving", "%s.r is mx.get_object(%s)" % (H, snap)))
+    if want is not None or c.post != "none":
+        probes.append(("refmode", refmode_probe % (H, mode)))
+    groups.append(("static", "deriver", probes))
+    # ItemSpaces
+    holders = []        # (holder expression, root path of its base's tree, expression of the dynamic root, basis)
+    if c.items in ("D-param", "D-live"):
+        holders.append(("m.D[1]" + "".join("." + p for p in rel_d), ("D",), "m.D[1]", "static-binding"))
+    elif c.items == "mid-param":
+        holders.append(("m.D.C[1]" + "".join("." + p for p in rel_d[1:]), ("D", "C"), "m.D.C[1]", "static-binding"))
+    elif c.items == "T1-param":
+        holders.append(("m.A.B[1]" + "".join("." + p for p in rel_d), NEST_T1, "m.A.B[1]", "target"))
+    for holder, root, dynroot, basis in holders:
+        if basis == "target":
+            vpath = tpath
+        else:
+            try:
+                v = L.ev(H + ".r")
+                vpath = tuple(v.fullname.split(".")[1:])
+            except Exception:
+                continue            # the static binding itself cannot be read: reported by the static group
+        if mode != "absolute" and inside(root, vpath):
+            ibound = dynroot + "".join("." + p for p in vpath[len(root):])
+        else:
+            ibound = expr(vpath)
+            if mode == "relative":
+                # modelx refuses to build such an ItemSpace (explicit ValueError): "keeps denoting the original
+                # object" is asserted only if the ItemSpace can be built
+                try:
+                    L.ev(holder + ".r")
+                except Exception:
+                    continue
+        fixed = True
+        groups.append(("itemspace", "item-of-" + ".".join(root),
+                       [("wrong-binding", "%s.r is %s" % (holder, ibound)), formula_probe(holder, ibound, tcells)]))
+    with res.case(c.key(), nontrivial=fixed):
+        for obs, which, probes in groups:
+            for sym, probe in probes:
+                try:
+                    ok = bool(L.ev(probe))
+                    exc = None
+                except Exception as ex:
+                    ok, exc = False, ex
+                if not ok:
+                    res.fail(tags=tags0 + ["which:" + which, "obs:" + obs,
+                                           "sym:" + (sym if exc is None else "read-crash")]
+                             + (["items:" + c.items] if obs == "itemspace" else [])
+                             + (exc_tags(exc) if exc is not None else []),
+                             what="expected %s%s" % (probe, "" if exc is None else
+                                                     "; raised %s: %s" % (type(exc).__name__, str(exc)[:200])),
+                             script=L.script(probe), case=c.text())
+                    break           # one report per observed space
+    res.sample(c.text())
+
+
 # ------------------------------------------------------------------------------------------------ driver
 
 def work(task, sub):
@@ -894,7 +1285,9 @@ def work(task, sub):
             sub.notes.append("budget ended in part " + c.part)
             return
         reset()
-        if c.part == "multi":
+        if c.part == "nested":
+            run_nested(sub, c)
+        elif c.part == "multi":
             run_multi(sub, c)
         elif c.part == "static":
             run_static(sub, c)
@@ -905,9 +1298,29 @@ def work(task, sub):
 def run(res, tier, seed):
     from c03_pool import run_parallel
     thorough = tier != "quick"
-    multi = list(multi_cases(thorough))        # first: the sampled / long-tail-free new part always completes
-    cases = multi + list(static_cases(thorough)) + list(dynamic_cases(thorough))
-    res.bound = ("several derivers: %d shapes of >= 2 deriving spaces (%s) x reference (re-)assigned %s x 6 (op, mode) "
+    nested = list(nested_cases(thorough))      # first: the newest parts always complete
+    multi = list(multi_cases(thorough))
+    cases = nested + multi + list(static_cases(thorough)) + list(dynamic_cases(thorough))
+    res.bound = ("nested derivation: tree A.B/A.B.C/A.B.C.E and parallel tree D/D.C/D.C.E deriving it level by level "
+                 "(levels B+C+E, B+C, C+E) x %d creation orders (new_space(bases=) / add_bases, top-down, bottom-up, "
+                 "outer or middle level last) x reference defined in the middle / innermost space %s x %s x %d "
+                 "targets (definer, its cells, its child, each ancestor inside / above the shared tree and their "
+                 "cells, outside objects) x follow-ups %s x ItemSpace flavours %s; "
+                 % ((sum(len(v) for v in NEST_ORDERS.values()),
+                     "before / after / in between the derivations, re-assigned from a scalar",
+                     "6 (op, mode) pairs", len(NEST_TARGETS),
+                     "(none, remove+add the base of level 0 / 1 / 2, directory and zip save+load, base change then "
+                     "save+load, save+load then base change)",
+                     "(none, D with parameters [ItemSpace built at observation / before the assignment], D.C with "
+                     "parameters, A.B with parameters; 1-5 flavours per follow-up, table NEST_THOROUGH; the in-between "
+                     "and re-assigned placements with 3 of the 6 pairs and 3 of the follow-ups)")
+                    if thorough else
+                    (sum(len(v) for v in NEST_ORDERS.values()), "before / after the derivations",
+                     "4 (op, mode) pairs (attr, set_ref relative, absref, relref)", len(NEST_TARGETS) - 2,
+                     "(none, remove+add the base of level 0 / 1 / 2, directory save+load)",
+                     "(none, D / D.C / A.B with parameters; every pair without a follow-up, 2-3 (form, flavour) "
+                     "pairs per follow-up)"))
+                 + "several derivers: %d shapes of >= 2 deriving spaces (%s) x reference (re-)assigned %s x 6 (op, mode) "
                  "pairs (attr, set_ref x 3 modes, absref, relref) x %s x %s; deriving spaces with / without "
                  "parameters (ItemSpace [1] built before the last assignment and at observation)%s; "
                  % ((len(SHAPES), ", ".join(SHAPES), "before / after / between the derivations, after a remove+add of "
@@ -939,7 +1352,15 @@ def run(res, tier, seed):
                 "tree, or an object outside); a refused definition in relative mode with an outside target is "
                 "counted trivial.  Several derivers: the same oracle in every deriving space D (`D.r is <object at the "
                 "same relative path below D>` / `is <original>`) and in D[1]; a target below the definer is run but "
-                "counted trivial (only the definer's own value is checked).  distinct = the case tuple.")
+                "counted trivial (only the definer's own value is checked).  Nested derivation: the binding in the "
+                "deriving space of the definer's level is asserted when the target is the definer / its cells "
+                "(rebind), in absolute mode or when the target lies outside every tree in question (original); for "
+                "an ancestor inside the shared tree or an object below the definer the static binding is NOT "
+                "asserted, only (i) that the object bound before a remove+add of the same bases / save+load is the "
+                "bound object afterwards and the declared mode is read back, (ii) that the ItemSpace copy of the "
+                "reference denotes the dynamic counterpart of whatever the static reference denotes when that lies "
+                "inside the base's tree, else the same object; such a case is non-trivial when (i) or (ii) was "
+                "evaluated.  distinct = the case tuple.")
     res.exhaustive = True
     chunks = [cases[i:i + 40] for i in range(0, len(cases), 40)]
     run_parallel(res, work, chunks, margin=0.93)
